@@ -221,19 +221,47 @@ Lemma same_env_refl w : same_env w w. Proof. repeat split; auto. Qed.
 Lemma same_env_trans a b c : same_env a b -> same_env b c -> same_env a c.
 Proof. unfold same_env. intuition congruence. Qed.
 
-Lemma sel_delayed_env : forall rdel w lab o w1 lab1, sel_delayed w rdel lab = (o, w1, lab1) -> same_env w w1.
+Section FixT.
+Variable fx : bool.
+Variable f8 : bool.
+
+Lemma forget_env w a : same_env w (forget f8 w a).
+Proof. unfold forget. destruct (f8 && crumb_dead w a); repeat split; auto. Qed.
+Lemma forget_fields w a : w_ready (forget f8 w a) = w_ready w /\ w_delayed (forget f8 w a) = w_delayed w
+  /\ w_blocked (forget f8 w a) = w_blocked w.
+Proof. unfold forget. destruct (f8 && crumb_dead w a); repeat split; auto. Qed.
+(* forgetting only removes entries *)
+Lemma lt_remove_some k j v l : lookup_t k (remove_t j l) = Some v -> k <> j /\ lookup_t k l = Some v.
+Proof. intros H. destruct (addr_eqb k j) eqn:E. apply addr_eqb_eq in E. subst. rewrite lt_remove_same in H. discriminate.
+  apply addr_eqb_neq in E. rewrite lt_remove_other in H; auto. Qed.
+Lemma forget_sub w a k v : lookup_t k (w_tasks (forget f8 w a)) = Some v -> lookup_t k (w_tasks w) = Some v.
+Proof. unfold forget. destruct (f8 && crumb_dead w a); simpl; auto. intros H. apply lt_remove_some in H. tauto. Qed.
+Lemma forget_In w a x : In x (w_tasks (forget f8 w a)) -> In x (w_tasks w).
+Proof. unfold forget. destruct (f8 && crumb_dead w a); simpl; auto. destruct x as [k v]. intros H.
+  apply (In_remove addr_eqb addr_eqb_eq) in H. tauto. Qed.
+
+Lemma sel_ready_env : forall ready w lab o w1 r lab1, sel_ready f8 w ready lab = (o, w1, r, lab1) ->
+  same_env w w1 /\ w_delayed w1 = w_delayed w /\ w_ready w1 = w_ready w /\ w_blocked w1 = w_blocked w.
+Proof. induction ready as [|a rd IH]; intros w lab o w1 r lab1 H; simpl in H.
+  inv H. split. apply same_env_refl. auto.
+  destruct (runnable w a). inv H. split. apply same_env_refl. auto.
+  apply IH in H. destruct H as (E & D & R & B). destruct (forget_fields w a) as (F1 & F2 & F3).
+  split. eapply same_env_trans; [apply forget_env|exact E]. repeat split; congruence. Qed.
+
+Lemma sel_delayed_env : forall rdel w lab o w1 lab1, sel_delayed f8 w rdel lab = (o, w1, lab1) -> same_env w w1.
 Proof. induction rdel as [|t rest IH]; intros w lab o w1 lab1 H; simpl in H.
   inv H. repeat split; auto.
   dmH H. inv H. repeat split; auto.
-  apply IH in H. eapply same_env_trans; [|exact H]. repeat split; auto. Qed.
+  apply IH in H. eapply same_env_trans; [|exact H]. eapply same_env_trans; [|apply forget_env]. repeat split; auto. Qed.
 
-Lemma select_env w o w1 out lab : select w = (o, w1, out, lab) -> same_env w w1.
+Lemma select_env w o w1 out lab : select f8 w = (o, w1, out, lab) -> same_env w w1.
 Proof. unfold select. intros H.
-  destruct (sel_ready w (w_ready w) []) as [[o1 r] lab1] eqn:S.
+  destruct (sel_ready f8 w (w_ready w) []) as [[[o1 w'] r] lab1] eqn:S.
+  apply sel_ready_env in S. destruct S as ((S1 & S2 & S3 & S4) & _).
   destruct o1. inv H. repeat split; auto.
-  destruct (sel_delayed (set_ready [] w) (rev (w_delayed w)) lab1) as [[o2 w2] lab2] eqn:D.
+  destruct (sel_delayed f8 (set_ready [] w') (rev (w_delayed w')) lab1) as [[o2 w2] lab2] eqn:D.
   apply sel_delayed_env in D. destruct D as (D1 & D2 & D3 & D4). simpl in *.
-  destruct o2; inv H; repeat split; auto. Qed.
+  destruct o2; inv H; repeat split; simpl; congruence. Qed.
 
 Lemma raise_path_env w rt k out lab w' out' lab' : raise_path w rt k out lab = (w', out', lab') -> same_env w w'.
 Proof. unfold raise_path. intros H. dmH H; inv H; repeat split; auto. Qed.
@@ -284,8 +312,6 @@ Lemma completion_fixed_all wid st st' : completion true wid st = Some st' ->
   forall mb, In mb (rt_owned (c_rt st)) -> lookup_b mb (c_boxes st') = None.
 Proof. unfold completion. apply completion_loop_copy_all. Qed.
 
-Section FixT.
-Variable fx : bool.
 
 Lemma completion_bext wid s s' : completion fx wid s = Some s' -> bext (c_boxes s) (c_counter s) (c_boxes s') (c_counter s').
 Proof. unfold completion. destruct fx. apply completion_loop_copy_bext. apply completion_loop_py_bext. Qed.
@@ -295,11 +321,11 @@ Ltac rp H := match type of H with context[raise_path ?a ?b ?c ?d ?e] =>
   let R := fresh "RP" in destruct (raise_path a b c d e) as [[? ?] ?] eqn:R; apply raise_path_env in R;
   destruct R as (R1 & R2 & R3 & R4) end.
 
-Lemma wstep_fields P w0 w' out lab : wstep fx P w0 = Some (w', out, lab) ->
+Lemma wstep_fields P w0 w' out lab : wstep fx f8 P w0 = Some (w', out, lab) ->
   bext (w_boxes w0) (w_counter w0) (w_boxes w') (w_counter w') /\ w_id w' = w_id w0 /\ w_cancelled w' = w_cancelled w0.
 Proof.
   unfold wstep. intros H. dmH H; [discriminate|].
-  destruct (select w0) as [[[o w] out0] lab0] eqn:S. apply select_env in S. destruct S as (S1 & S2 & S3 & S4).
+  destruct (select f8 w0) as [[[o w] out0] lab0] eqn:S. apply select_env in S. destruct S as (S1 & S2 & S3 & S4).
   destruct o as [rt0|]; [|inv H; rewrite S1, S2, S3, S4; repeat split; auto; apply bext_refl].
   destruct (desired_result (w_id w) rt0 (w_boxes w)) as [[[boxes1 rt1] l1]|] eqn:DR.
   2:{ rp H; inv H.
@@ -378,13 +404,19 @@ Definition lab_ok (w0 : wstate) (l : label) : Prop :=
 Lemma dead_on_env w w' t : w_cancelled w' = w_cancelled w -> dead_on w' t = dead_on w t.
 Proof. unfold dead_on. intros ->. auto. Qed.
 
-Lemma sel_ready_labels w0 w : w_cancelled w = w_cancelled w0 -> keys_ok w -> forall ready lab o r lab',
-  sel_ready w ready lab = (o, r, lab') -> Forall (lab_ok w0) lab -> Forall (lab_ok w0) lab'.
+Lemma keys_ok_forget w a : keys_ok w -> keys_ok (forget f8 w a).
+Proof. intros K x rt H. apply forget_In in H. apply K; auto. Qed.
+Lemma forget_cancelled w a : w_cancelled (forget f8 w a) = w_cancelled w.
+Proof. destruct (forget_env w a) as (_ & E & _). auto. Qed.
+
+Lemma sel_ready_labels w0 : forall ready w lab o w1 r lab', w_cancelled w = w_cancelled w0 -> keys_ok w ->
+  sel_ready f8 w ready lab = (o, w1, r, lab') -> Forall (lab_ok w0) lab -> Forall (lab_ok w0) lab' /\ keys_ok w1.
 Proof.
-  intros EC KO. induction ready as [|a rd IH]; intros lab o r lab' H F; simpl in H.
+  induction ready as [|a rd IH]; intros w lab o w1 r lab' EC KO H F; simpl in H.
   inv H; auto.
   destruct (runnable w a) eqn:R. inv H; auto.
-  eapply IH; eauto. apply Forall_app. split; auto. constructor; auto.
+  eapply IH in H; eauto. rewrite forget_cancelled; auto. apply keys_ok_forget; auto.
+  apply Forall_app. split; auto. constructor; auto.
   simpl. destruct (lookup_t a (w_tasks w)) eqn:L; simpl; auto.
   rewrite <- (dead_on_env w0 w) by auto. eapply runnable_none_held; eauto. apply KO. apply lt_In; auto.
 Qed.
@@ -393,7 +425,7 @@ Lemma keys_ok_put w t : keys_ok w -> keys_ok (set_tasks (put_t (t_addr t) (fresh
 Proof. intros K a rt H. simpl in H. apply In_put_inv in H. destruct H as [H|H]. inv H; auto. apply K; auto. Qed.
 
 Lemma sel_delayed_labels w0 : forall rdel w lab o w1 lab1, w_cancelled w = w_cancelled w0 -> keys_ok w ->
-  sel_delayed w rdel lab = (o, w1, lab1) -> Forall (lab_ok w0) lab ->
+  sel_delayed f8 w rdel lab = (o, w1, lab1) -> Forall (lab_ok w0) lab ->
   Forall (lab_ok w0) lab1 /\ keys_ok w1 /\
   (forall rt, o = Some rt -> dead_on w0 (rt_task rt) = false /\ lookup_t (t_addr (rt_task rt)) (w_tasks w1) = Some rt
       /\ rt_owned rt = [] /\ rt_desired rt = None).
@@ -407,7 +439,7 @@ Proof.
     + inv H. apply runnable_some in R. destruct R as [R1 R2]. rewrite LA in R1. inv R1.
       split; auto. split; auto. intros rt' E. inv E. simpl. repeat split; auto.
       rewrite <- (dead_on_env w0 wa) by auto. apply R2; auto.
-    + eapply IH in H; eauto.
+    + eapply IH in H; eauto. rewrite forget_cancelled; auto. apply keys_ok_forget; auto.
       apply Forall_app; split; auto. constructor; auto. simpl.
       rewrite <- (dead_on_env w0 wa) by auto. eapply (runnable_none_held wa (t_addr t) (fresh_rt t)); eauto.
 Qed.
@@ -459,29 +491,33 @@ Proof.
         destruct C as [C|C]; auto. rewrite D3 in C. apply In_remove_first in C. auto.
 Qed.
 
-Lemma sel_ready_some w : keys_ok w -> forall ready lab rt r lab', sel_ready w ready lab = (Some rt, r, lab') ->
-  lookup_t (t_addr (rt_task rt)) (w_tasks w) = Some rt /\ dead_on w (rt_task rt) = false.
+Lemma sel_ready_some : forall ready w lab rt w1 r lab', keys_ok w -> sel_ready f8 w ready lab = (Some rt, w1, r, lab') ->
+  lookup_t (t_addr (rt_task rt)) (w_tasks w1) = Some rt /\ dead_on w (rt_task rt) = false
+  /\ lookup_t (t_addr (rt_task rt)) (w_tasks w) = Some rt.
 Proof.
-  intros KO. induction ready as [|a rd IH]; intros lab rt r lab' H; simpl in H. discriminate.
+  induction ready as [|a rd IH]; intros w lab rt w1 r lab' KO H; simpl in H. discriminate.
   destruct (runnable w a) eqn:R.
   - inv H. apply runnable_some in R. destruct R as [R1 R2].
     assert (K : t_addr (rt_task rt) = a) by (apply KO; apply lt_In; auto). rewrite K. auto.
-  - eapply IH; eauto.
+  - apply IH in H; [|apply keys_ok_forget; auto]. destruct H as (H1 & H2 & H3). split; auto. split.
+    rewrite <- (dead_on_env w (forget f8 w a)); auto. apply forget_cancelled.
+    eapply forget_sub; eauto.
 Qed.
 
-Lemma select_spec w0 o w out lab : select w0 = (o, w, out, lab) -> keys_ok w0 ->
+Lemma select_spec w0 o w out lab : select f8 w0 = (o, w, out, lab) -> keys_ok w0 ->
   Forall (lab_ok w0) lab /\ keys_ok w /\
   (forall rt0, o = Some rt0 -> dead_on w0 (rt_task rt0) = false
       /\ lookup_t (t_addr (rt_task rt0)) (w_tasks w) = Some rt0
       /\ (lookup_t (t_addr (rt_task rt0)) (w_tasks w0) = Some rt0 \/ rt_owned rt0 = [])).
 Proof.
   unfold select. intros H KO.
-  destruct (sel_ready w0 (w_ready w0) []) as [[o1 r] lab1] eqn:S.
-  assert (F1 : Forall (lab_ok w0) lab1) by (eapply sel_ready_labels; eauto).
+  destruct (sel_ready f8 w0 (w_ready w0) []) as [[[o1 w'] r] lab1] eqn:S.
+  pose proof (sel_ready_env _ _ _ _ _ _ _ S) as ((E1 & E2 & E3 & E4) & _).
+  destruct (sel_ready_labels w0 _ _ _ _ _ _ _ eq_refl KO S (Forall_nil _)) as [F1 K1].
   destruct o1 as [rt|].
-  - inv H. apply sel_ready_some in S; auto. destruct S as [S1 S2]. split; auto. split. exact KO.
+  - inv H. apply sel_ready_some in S; auto. destruct S as (S1 & S2 & S3). split; auto. split. exact K1.
     intros rt0 E. inv E. simpl. auto.
-  - destruct (sel_delayed (set_ready [] w0) (rev (w_delayed w0)) lab1) as [[o2 w2] lab2] eqn:D.
+  - destruct (sel_delayed f8 (set_ready [] w') (rev (w_delayed w')) lab1) as [[o2 w2] lab2] eqn:D.
     eapply sel_delayed_labels in D; eauto. destruct D as (D1 & D2 & D3).
     destruct o2 as [rt|]; inv H; (split; [auto|split; [exact D2|]]).
     + intros rt0 E. inv E. destruct (D3 rt0 eq_refl) as (A1 & A2 & A3 & A4). simpl. auto.
@@ -548,11 +584,11 @@ Proof. unfold handle_result. destruct ra as [[x y] z]. intros H w0. repeat dmH H
 Lemma keys_ok_put_same w a rt : keys_ok w -> t_addr (rt_task rt) = a -> forall x rt', In (x, rt') (put_t a rt (w_tasks w)) -> t_addr (rt_task rt') = x.
 Proof. intros K E x rt' H. apply In_put_inv in H. destruct H as [H|H]. inv H; auto. apply K; auto. Qed.
 
-Lemma wstep_labels P w0 w' out lab : wstep fx P w0 = Some (w', out, lab) -> keys_ok w0 ->
+Lemma wstep_labels P w0 w' out lab : wstep fx f8 P w0 = Some (w', out, lab) -> keys_ok w0 ->
   Forall (lab_ok w0) lab /\ keys_ok w'.
 Proof.
   unfold wstep. intros H KO. dmH H; [discriminate|].
-  destruct (select w0) as [[[o w] out0] lab0] eqn:S.
+  destruct (select f8 w0) as [[[o w] out0] lab0] eqn:S.
   pose proof (select_env _ _ _ _ _ S) as (S1 & S2 & S3 & S4).
   apply select_spec in S; auto. destruct S as (F0 & KW & SP).
   destruct o as [rt0|]; [|inv H; auto].
@@ -623,7 +659,7 @@ Definition wrecv (m : msg) (ws : wstate) : option (wstate * list label) :=
   | _ => None
   end.
 
-Lemma step_down P s w s' l : step fx P s (EDown w) = Some (s', l) ->
+Lemma step_down P s w s' l : step fx f8 P s (EDown w) = Some (s', l) ->
   exists m q ws ws', nth_error (sy_down s) w = Some (m :: q) /\ nth_error (sy_workers s) w = Some ws
     /\ wrecv m ws = Some (ws', l)
     /\ s' = mkSys (set_nth w ws' (sy_workers s)) (sy_server s) (sy_up s) (set_nth w q (sy_down s)) (sy_cli s) (sy_issued s).
@@ -635,20 +671,20 @@ Proof.
   inv H. do 4 eexists. repeat split; eauto.
 Qed.
 
-Lemma step_step P s w s' l : step fx P s (EStep w) = Some (s', l) ->
+Lemma step_step P s w s' l : step fx f8 P s (EStep w) = Some (s', l) ->
   exists ws q ws' out, nth_error (sy_workers s) w = Some ws /\ nth_error (sy_up s) w = Some q
-    /\ wstep fx P ws = Some (ws', out, l)
+    /\ wstep fx f8 P ws = Some (ws', out, l)
     /\ s' = mkSys (set_nth w ws' (sy_workers s)) (sy_server s) (set_nth w (q ++ out) (sy_up s)) (sy_down s)
                   (sy_cli s) (sy_issued s ++ cancels_of out).
 Proof.
   unfold step. intros H.
   destruct (nth_error (sy_workers s) w) as [ws|] eqn:W; try discriminate.
   destruct (nth_error (sy_up s) w) as [q|] eqn:U; try discriminate.
-  destruct (wstep fx P ws) as [[[ws1 out] lab]|] eqn:R; [|discriminate].
+  destruct (wstep fx f8 P ws) as [[[ws1 out] lab]|] eqn:R; [|discriminate].
   inv H. do 4 eexists. repeat split; eauto.
 Qed.
 
-Lemma step_up P s w asg s' l : step fx P s (EUp w asg) = Some (s', l) ->
+Lemma step_up P s w asg s' l : step fx f8 P s (EUp w asg) = Some (s', l) ->
   exists m q srv o lab, nth_error (sy_up s) w = Some (m :: q)
     /\ sup (length (sy_workers s)) m asg (sy_server s) = Some (srv, o, lab)
     /\ s' = apply_sout o [] srv (mkSys (sy_workers s) (sy_server s) (set_nth w q (sy_up s)) (sy_down s) (sy_cli s) (sy_issued s))
@@ -660,7 +696,7 @@ Proof.
   inv H. do 5 eexists. repeat split; eauto.
 Qed.
 
-Lemma step_client P s c r asg s' l : step fx P s (EClient c r asg) = Some (s', l) ->
+Lemma step_client P s c r asg s' l : step fx f8 P s (EClient c r asg) = Some (s', l) ->
   exists srv o iss, sreq (length (sy_workers s)) c r asg (sy_server s) = Some (srv, o, iss)
     /\ s' = apply_sout o iss srv s /\ l = map (fun p => LToClient (fst p) (snd p)) (o_cli o).
 Proof.
@@ -831,18 +867,18 @@ Lemma nocl_nil : nocl []. Proof. intros w a mb n []. Qed.
 Lemma nocl_app a b : nocl a -> nocl b -> nocl (a ++ b).
 Proof. intros A B w x mb n IN. apply in_app_or in IN. destruct IN; [eapply A|eapply B]; eauto. Qed.
 
-Lemma sel_ready_nocl w : forall ready lab o r lab', sel_ready w ready lab = (o, r, lab') -> nocl lab -> nocl lab'.
-Proof. induction ready as [|a rd IH]; intros lab o r lab' H N; simpl in H. inv H; auto.
+Lemma sel_ready_nocl : forall ready w lab o w1 r lab', sel_ready f8 w ready lab = (o, w1, r, lab') -> nocl lab -> nocl lab'.
+Proof. induction ready as [|a rd IH]; intros w lab o w1 r lab' H N; simpl in H. inv H; auto.
   destruct (runnable w a). inv H; auto. eapply IH; eauto. apply nocl_app; auto.
   intros x y mb n [IN|[]]. discriminate. Qed.
-Lemma sel_delayed_nocl : forall rdel w lab o w1 lab1, sel_delayed w rdel lab = (o, w1, lab1) -> nocl lab -> nocl lab1.
+Lemma sel_delayed_nocl : forall rdel w lab o w1 lab1, sel_delayed f8 w rdel lab = (o, w1, lab1) -> nocl lab -> nocl lab1.
 Proof. induction rdel as [|t rest IH]; intros w lab o w1 lab1 H N; simpl in H. inv H; auto.
   dmH H. inv H; auto. eapply IH; eauto. apply nocl_app; auto. intros x y mb n [IN|[]]. discriminate. Qed.
-Lemma select_nocl w o w1 out lab : select w = (o, w1, out, lab) -> cancels_of out = [] /\ nocl lab.
+Lemma select_nocl w o w1 out lab : select f8 w = (o, w1, out, lab) -> cancels_of out = [] /\ nocl lab.
 Proof. unfold select. intros H.
-  destruct (sel_ready w (w_ready w) []) as [[o1 r] lab1] eqn:S. apply sel_ready_nocl in S; [|apply nocl_nil].
+  destruct (sel_ready f8 w (w_ready w) []) as [[[o1 w'] r] lab1] eqn:S. apply sel_ready_nocl in S; [|apply nocl_nil].
   destruct o1. inv H; auto.
-  destruct (sel_delayed (set_ready [] w) (rev (w_delayed w)) lab1) as [[o2 w2] lab2] eqn:D.
+  destruct (sel_delayed f8 (set_ready [] w') (rev (w_delayed w')) lab1) as [[o2 w2] lab2] eqn:D.
   apply sel_delayed_nocl in D; auto. destruct o2; inv H; auto. Qed.
 
 Lemma labs_dropped_nocl b c l : nocl l -> labs_dropped b c l.
@@ -867,7 +903,7 @@ Lemma handle_result_nocl ra v w w' l : handle_result ra v w = Some (w', l) -> no
 Proof. unfold handle_result. destruct ra as [[x y] z]. intros H. repeat dmH H; inv H; try apply nocl_nil.
   intros ? ? ? ? [IN|[]]; discriminate. Qed.
 
-Lemma wstep_cancels P w0 w' out lab : wstep fx P w0 = Some (w', out, lab) -> blt (w_boxes w0) (w_counter w0) ->
+Lemma wstep_cancels P w0 w' out lab : wstep fx f8 P w0 = Some (w', out, lab) -> blt (w_boxes w0) (w_counter w0) ->
   outs_dropped (w_id w0) (w_boxes w') (w_counter w') out /\ labs_dropped (w_boxes w') (w_counter w') lab
   /\ blt (w_boxes w') (w_counter w').
 Proof.
@@ -875,7 +911,7 @@ Proof.
   split; [|split; [|eapply bext_blt; eauto]].
   - (* out *)
     revert H. unfold wstep. intros H. dmH H; [discriminate|].
-    destruct (select w0) as [[[o w] out0] lab0] eqn:S.
+    destruct (select f8 w0) as [[[o w] out0] lab0] eqn:S.
     pose proof (select_env _ _ _ _ _ S) as (S1 & S2 & S3 & S4). apply select_nocl in S. destruct S as [SO SL].
     destruct o as [rt0|]; [|inv H; apply outs_dropped_none; auto].
     destruct (desired_result (w_id w) rt0 (w_boxes w)) as [[[boxes1 rt1] l1]|] eqn:DR.
@@ -923,7 +959,7 @@ Proof.
       apply outs_dropped_app; [apply outs_dropped_app; auto|apply outs_dropped_none; auto].
   - (* labels *)
     revert H. unfold wstep. intros H. dmH H; [discriminate|].
-    destruct (select w0) as [[[o w] out0] lab0] eqn:S.
+    destruct (select f8 w0) as [[[o w] out0] lab0] eqn:S.
     pose proof (select_env _ _ _ _ _ S) as (S1 & S2 & S3 & S4). apply select_nocl in S. destruct S as [SO SL].
     destruct o as [rt0|]; [|inv H; apply labs_dropped_nocl; auto].
     assert (L0 : nocl (lab0 ++ [LRun (w_id w) (rt_task rt0)])).
@@ -1034,7 +1070,7 @@ Proof.
   - eapply DD; eauto.
 Qed.
 
-Lemma sinv_step P s e s' l : step fx P s e = Some (s', l) -> sinv s -> sinv s'.
+Lemma sinv_step P s e s' l : step fx f8 P s e = Some (s', l) -> sinv s -> sinv s'.
 Proof.
   intros H [[LU LD WK] BL DR]. destruct e.
   - apply step_client in H. destruct H as (srv & o & iss & H1 & H2 & _). subst. unfold apply_sout. constructor; simpl.
@@ -1073,17 +1109,17 @@ Qed.
 
 (* properties of every step along a run *)
 Lemma run_inv P (I : sys -> Prop) (Q : label -> Prop) :
-  (forall s e s' l, I s -> step fx P s e = Some (s', l) -> I s' /\ Forall Q l) ->
-  forall evs s s' l, I s -> run fx P s evs = Some (s', l) -> I s' /\ Forall Q l.
+  (forall s e s' l, I s -> step fx f8 P s e = Some (s', l) -> I s' /\ Forall Q l) ->
+  forall evs s s' l, I s -> run fx f8 P s evs = Some (s', l) -> I s' /\ Forall Q l.
 Proof.
   intros ST. induction evs as [|e r IH]; intros s s' l HI H; simpl in H.
   - inv H. auto.
-  - destruct (step fx P s e) as [[s1 l1]|] eqn:S; [|discriminate].
-    destruct (run fx P s1 r) as [[s2 l2]|] eqn:R; [|discriminate]. inv H.
+  - destruct (step fx f8 P s e) as [[s1 l1]|] eqn:S; [|discriminate].
+    destruct (run fx f8 P s1 r) as [[s2 l2]|] eqn:R; [|discriminate]. inv H.
     destruct (ST _ _ _ _ HI S) as [I1 Q1]. destruct (IH _ _ _ I1 R) as [I2 Q2]. split; auto. apply Forall_app; auto.
 Qed.
 
-Lemma run_sinv P evs : forall s s' l, sinv s -> run fx P s evs = Some (s', l) -> sinv s'.
+Lemma run_sinv P evs : forall s s' l, sinv s -> run fx f8 P s evs = Some (s', l) -> sinv s'.
 Proof. intros s s' l HI H. eapply (run_inv P sinv (fun _ => True)); eauto.
   intros. split. eapply sinv_step; eauto. apply Forall_forall; auto. Qed.
 
@@ -1118,7 +1154,7 @@ Qed.
 Lemma sup_labels nw m asg srv srv' o lab : sup nw m asg srv = Some (srv', o, lab) -> Forall (fun x => main_label x = false) lab.
 Proof. intros H. destruct m; simpl in H; repeat dmH H; inv H; auto. Qed.
 
-Lemma step_nonmain P s e s' l : step fx P s e = Some (s', l) -> (forall k, e <> EStep k) -> Forall (fun x => main_label x = false) l.
+Lemma step_nonmain P s e s' l : step fx f8 P s e = Some (s', l) -> (forall k, e <> EStep k) -> Forall (fun x => main_label x = false) l.
 Proof.
   intros H N. destruct e.
   - apply step_client in H. destruct H as (srv & o & iss & H1 & H2 & ->).
@@ -1135,7 +1171,7 @@ Qed.
 Definition cancel_handled (s : sys) (k : nat) (c : addr) : Prop :=
   exists ws, nth_error (sy_workers s) k = Some ws /\ In c (w_cancelled ws).
 
-Lemma step_cancelled_mono P s e s' l k c : step fx P s e = Some (s', l) -> sinv s ->
+Lemma step_cancelled_mono P s e s' l k c : step fx f8 P s e = Some (s', l) -> sinv s ->
   cancel_handled s k c -> cancel_handled s' k c.
 Proof.
   intros H [[LU LD WK] BL DR] (ws & W & C). destruct e.
@@ -1153,12 +1189,12 @@ Proof.
     + exists ws. simpl. split; auto. rewrite nth_error_set_nth_other; auto.
 Qed.
 
-Lemma step_lab_ok P s k s' l : step fx P s (EStep k) = Some (s', l) -> sinv s ->
+Lemma step_lab_ok P s k s' l : step fx f8 P s (EStep k) = Some (s', l) -> sinv s ->
   exists ws, nth_error (sy_workers s) k = Some ws /\ w_id ws = S k /\ Forall (lab_ok ws) l.
 Proof. intros H [[LU LD WK] BL DR]. apply step_step in H. destruct H as (ws0 & q & ws' & out & H1 & H2 & H3 & ->).
   destruct (WK _ _ H1) as [K1 K2]. exists ws0. split; auto. split; auto. eapply wstep_labels; eauto. Qed.
 
-Lemma step_run_dead P s e s' l k c : step fx P s e = Some (s', l) -> sinv s -> cancel_handled s k c ->
+Lemma step_run_dead P s e s' l k c : step fx f8 P s e = Some (s', l) -> sinv s -> cancel_handled s k c ->
   Forall (fun x => forall t, x = LRun (S k) t -> desc c t = false) l.
 Proof.
   intros H I (ws & W & C).
@@ -1172,9 +1208,9 @@ Proof.
 Qed.
 
 Theorem descendants_not_run P nw evs1 k evs2 s1 l1 s2 l2 s3 l3 c q :
-  run fx P (init_sys nw) evs1 = Some (s1, l1) ->
-  nth_error (sy_down s1) k = Some (MCancel c :: q) -> step fx P s1 (EDown k) = Some (s2, l2) ->
-  run fx P s2 evs2 = Some (s3, l3) ->
+  run fx f8 P (init_sys nw) evs1 = Some (s1, l1) ->
+  nth_error (sy_down s1) k = Some (MCancel c :: q) -> step fx f8 P s1 (EDown k) = Some (s2, l2) ->
+  run fx f8 P s2 evs2 = Some (s3, l3) ->
   forall t, In (LRun (S k) t) l3 -> desc c t = false.
 Proof.
   intros R1 HD ST R2 t IN.
@@ -1194,7 +1230,7 @@ Qed.
 Definition dropped_at (s : sys) (k mb : nat) : Prop :=
   exists ws, nth_error (sy_workers s) k = Some ws /\ cdrop (w_boxes ws) (w_counter ws) mb.
 
-Lemma step_dropped_mono P s e s' l k mb : step fx P s e = Some (s', l) -> sinv s -> dropped_at s k mb -> dropped_at s' k mb.
+Lemma step_dropped_mono P s e s' l k mb : step fx f8 P s e = Some (s', l) -> sinv s -> dropped_at s k mb -> dropped_at s' k mb.
 Proof.
   intros H [[LU LD WK] BL DR] (ws & W & C). destruct e.
   - apply step_client in H. destruct H as (srv & o & iss & H1 & -> & _). exists ws; auto.
@@ -1211,7 +1247,7 @@ Proof.
     + exists ws. simpl. split; auto. rewrite nth_error_set_nth_other; auto.
 Qed.
 
-Lemma step_no_obs P s e s' l k mb : step fx P s e = Some (s', l) -> sinv s -> dropped_at s k mb ->
+Lemma step_no_obs P s e s' l k mb : step fx f8 P s e = Some (s', l) -> sinv s -> dropped_at s k mb ->
   Forall (fun x => forall a nx vals, x <> LObs (S k) a mb nx vals) l.
 Proof.
   intros H I (ws & W & C).
@@ -1224,7 +1260,7 @@ Proof.
 Qed.
 
 (* the step that executes `cancel` leaves the mailbox dropped *)
-Lemma step_cancel_drops P s e s' l wid a mb n : step fx P s e = Some (s', l) -> sinv s -> In (LCancel wid a mb n) l ->
+Lemma step_cancel_drops P s e s' l wid a mb n : step fx f8 P s e = Some (s', l) -> sinv s -> In (LCancel wid a mb n) l ->
   exists k, wid = S k /\ e = EStep k /\ dropped_at s' k mb.
 Proof.
   intros H I IN.
@@ -1239,8 +1275,8 @@ Proof.
 Qed.
 
 Theorem no_delivery P nw evs1 e evs2 s1 l1 s2 l2 s3 l3 wid a mb n :
-  run fx P (init_sys nw) evs1 = Some (s1, l1) -> step fx P s1 e = Some (s2, l2) -> In (LCancel wid a mb n) l2 ->
-  run fx P s2 evs2 = Some (s3, l3) ->
+  run fx f8 P (init_sys nw) evs1 = Some (s1, l1) -> step fx f8 P s1 e = Some (s2, l2) -> In (LCancel wid a mb n) l2 ->
+  run fx f8 P s2 evs2 = Some (s3, l3) ->
   exists k, wid = S k /\ e = EStep k
     /\ (forall a' nx vals, ~ In (LObs wid a' mb nx vals) l3)
     /\ dropped_at s3 k mb.
@@ -1278,7 +1314,7 @@ Definition d8_run : list event :=
     EUp 0 [] ].
 
 Lemma d8_witness :
-  exists s labs, run false d8_progs (init_sys 1) d8_run = Some (s, labs)
+  exists s labs, run false false d8_progs (init_sys 1) d8_run = Some (s, labs)
     /\ quiescent s = true /\ clean s = false
     /\ forallb no_orphans (sy_workers s) = true.
 Proof. eexists. eexists. split; [vm_compute; reflexivity|]. vm_compute. auto. Qed.
@@ -1294,7 +1330,7 @@ Definition d14_run : list event :=
     EStep 0; EUp 0 []; EUp 0 [] ].
 
 Lemma d14_witness :
-  exists s labs, run false d14_progs (init_sys 1) d14_run = Some (s, labs)
+  exists s labs, run false false d14_progs (init_sys 1) d14_run = Some (s, labs)
     /\ quiescent s = true
     /\ In (LLeft 1 (0, 0, 0) [1]) labs                    (* mailbox 1 survives the completion of its owner *)
     /\ In (LRun 1 (mkTask (1, 1, 0) [(0, 0, 0)] 0 1)) labs (* the child nobody waits for is still run *)
@@ -1308,7 +1344,7 @@ Proof. induction l as [|y l IH]; intros [|n] x H; simpl in *; try discriminate. 
 
 Theorem await_fails P w0 rt0 w out0 lab0 prog f mb (nx : bool) :
   (w_blocked w0 && match w_ready w0 with [] => true | _ => false end) = false ->
-  select w0 = (Some rt0, w, out0, lab0) ->
+  select f8 w0 = (Some rt0, w, out0, lab0) ->
   rt_desired rt0 = None ->
   nth_error P (t_prog (rt_task rt0)) = Some prog ->
   nth_error prog (rt_pc rt0) = Some (if nx then INext f else IAwait f) ->
@@ -1317,7 +1353,7 @@ Theorem await_fails P w0 rt0 w out0 lab0 prog f mb (nx : bool) :
   let kind := if nx then K_NEXT_COMPLETED else K_AWAIT_CANCELLED in
   let sent := negb (dead_on w0 (rt_task rt0)) in
   exists w',
-    wstep fx P w0 = Some (w', out0 ++ (if sent then [MError (t_comp (rt_task rt0)) kind] else []),
+    wstep fx f8 P w0 = Some (w', out0 ++ (if sent then [MError (t_comp (rt_task rt0)) kind] else []),
                        (lab0 ++ [LRun (w_id w0) (rt_task rt0)]) ++ [LErr (w_id w0) (t_addr (rt_task rt0)) kind sent])
     /\ w_boxes w' = w_boxes w0.
 Proof.
@@ -1408,7 +1444,7 @@ Proof.
   - exfalso. apply nth_error_None in E. rewrite <- (length_push_down d) in E. apply nth_error_None in E. congruence.
 Qed.
 
-Lemma csound_step P s e s' l : step fx P s e = Some (s', l) -> sinv s -> csound s -> csound s'.
+Lemma csound_step P s e s' l : step fx f8 P s e = Some (s', l) -> sinv s -> csound s -> csound s'.
 Proof.
   intros H [[LU LD WK] BL DR] [CW CU CD]. destruct e.
   - apply step_client in H. destruct H as (srv & o & iss & H1 & -> & _). apply sreq_down in H1. constructor; simpl.
@@ -1481,39 +1517,117 @@ Proof.
       * left. right. exists t. split; auto. simpl. apply filter_In. rewrite D; auto.
 Qed.
 
-Lemma sel_delayed_keeps : forall rdel w lab o w1 lab1, sel_delayed w rdel lab = (o, w1, lab1) ->
-  (forall a, lookup_t a (w_tasks w) <> None -> lookup_t a (w_tasks w1) <> None)
-  /\ (forall t, In t rdel -> In t (w_delayed w1) \/ lookup_t (t_addr t) (w_tasks w1) <> None).
+Definition skipped (wid : nat) (a : addr) (lab : list label) : Prop := exists t, In (LSkip wid a (Some t)) lab.
+
+Lemma forget_keeps w a0 a : lookup_t a (w_tasks w) <> None ->
+  lookup_t a (w_tasks (forget f8 w a0)) <> None \/ (a = a0 /\ exists rt, lookup_t a0 (w_tasks w) = Some rt).
+Proof. unfold forget. intros L. destruct (f8 && crumb_dead w a0); auto. simpl.
+  destruct (addr_eqb a a0) eqn:E. apply addr_eqb_eq in E. subst. right. split; auto. destruct (lookup_t a0 (w_tasks w)); eauto. congruence.
+  apply addr_eqb_neq in E. left. rewrite lt_remove_other; auto. Qed.
+
+Lemma sel_ready_keeps : forall ready w lab o w1 r lab1, sel_ready f8 w ready lab = (o, w1, r, lab1) ->
+  (forall x, In x lab -> In x lab1)
+  /\ (forall a, lookup_t a (w_tasks w) <> None -> lookup_t a (w_tasks w1) <> None \/ skipped (w_id w) a lab1).
+Proof.
+  induction ready as [|a0 rd IH]; intros w lab o w1 r lab1 H; simpl in H.
+  - inv H. auto.
+  - destruct (runnable w a0). inv H; auto.
+    apply IH in H. destruct H as [M K]. destruct (forget_env w a0) as (EI & _). split.
+    + intros x IN. apply M. apply in_or_app; auto.
+    + intros a L. destruct (forget_keeps w a0 a L) as [X|[-> [rt X]]].
+      * destruct (K _ X) as [Y|Y]; auto. right. rewrite <- EI; auto.
+      * right. exists (rt_task rt). apply M. apply in_or_app. right. rewrite X. simpl. auto.
+Qed.
+
+Lemma sel_delayed_keeps : forall rdel w lab o w1 lab1, sel_delayed f8 w rdel lab = (o, w1, lab1) ->
+  (forall x, In x lab -> In x lab1)
+  /\ (forall a, lookup_t a (w_tasks w) <> None -> lookup_t a (w_tasks w1) <> None \/ skipped (w_id w) a lab1)
+  /\ (forall t, In t rdel -> In t (w_delayed w1) \/ lookup_t (t_addr t) (w_tasks w1) <> None \/ skipped (w_id w) (t_addr t) lab1).
 Proof.
   induction rdel as [|t rest IH]; intros w lab o w1 lab1 H; simpl in H.
   - inv H. split; auto.
   - dmH H.
-    + inv H. simpl. split. intros a L. apply lt_put_some; auto.
-      intros x [->|IN]. right. rewrite lt_put_same. congruence. left. apply in_rev in IN. auto.
-    + apply IH in H. destruct H as [H1 H2]. simpl in *. split.
-      intros a L. apply H1. apply lt_put_some; auto.
-      intros x [->|IN]; auto. right. apply H1. rewrite lt_put_same. congruence.
+    + inv H. simpl. split; auto. split. intros a L. left. apply lt_put_some; auto.
+      intros x [->|IN]. right. left. rewrite lt_put_same. congruence. left. apply in_rev in IN. auto.
+    + apply IH in H. destruct H as (M & H1 & H2).
+      set (wa := set_tasks (put_t (t_addr t) (fresh_rt t) (w_tasks w)) w) in *.
+      destruct (forget_env wa (t_addr t)) as (EI & _). simpl in EI.
+      assert (STEP : forall a, lookup_t a (w_tasks wa) <> None -> lookup_t a (w_tasks w1) <> None \/ skipped (w_id w) a lab1).
+      { intros a L. destruct (forget_keeps wa (t_addr t) a L) as [X|[-> [rt X]]].
+        - destruct (H1 _ X) as [Y|Y]; auto. right. rewrite <- EI; auto.
+        - right. exists t. apply M. apply in_or_app. right. left; auto. }
+      split. intros x IN. apply M. apply in_or_app; auto. split.
+      * intros a L. apply STEP. simpl. apply lt_put_some; auto.
+      * intros x [->|IN].
+        -- right. apply STEP. simpl. rewrite lt_put_same. congruence.
+        -- destruct (H2 _ IN) as [Y|[Y|Y]]; auto. right. right. rewrite <- EI; auto.
 Qed.
 
-Lemma select_keeps w0 o w out lab a : select w0 = (o, w, out, lab) -> holds_addr w0 a -> holds_addr w a.
+Lemma select_keeps w0 o w out lab a : select f8 w0 = (o, w, out, lab) -> holds_addr w0 a ->
+  holds_addr w a \/ skipped (w_id w0) a lab.
 Proof.
   unfold select. intros H HA.
-  destruct (sel_ready w0 (w_ready w0) []) as [[o1 r] lab1] eqn:S.
-  destruct o1. inv H. exact HA.
-  destruct (sel_delayed (set_ready [] w0) (rev (w_delayed w0)) lab1) as [[o2 w2] lab2] eqn:D.
-  apply sel_delayed_keeps in D. destruct D as [D1 D2]. simpl in *.
-  assert (HA2 : holds_addr w2 a).
-  { destruct HA as [HA|(t & T1 & T2)]. left; auto. apply in_rev in T1. destruct (D2 _ T1) as [X|X]. right; eauto. left. congruence. }
-  destruct o2; inv H; exact HA2.
+  destruct (sel_ready f8 w0 (w_ready w0) []) as [[[o1 w'] r] lab1] eqn:S.
+  pose proof (sel_ready_env _ _ _ _ _ _ _ S) as ((E1 & _) & E2 & _).
+  apply sel_ready_keeps in S. destruct S as [M1 K1].
+  assert (HA1 : holds_addr w' a \/ skipped (w_id w0) a lab1).
+  { destruct HA as [HA|HA]. destruct (K1 _ HA); auto. left; left; auto. left. right. rewrite E2. auto. }
+  destruct o1.
+  - inv H. destruct HA1 as [HA1|HA1]; auto.
+  - destruct (sel_delayed f8 (set_ready [] w') (rev (w_delayed w')) lab1) as [[o2 w2] lab2] eqn:D.
+    apply sel_delayed_keeps in D. destruct D as (M2 & D1 & D2). simpl in *. rewrite E1 in *.
+    assert (HA2 : holds_addr w2 a \/ skipped (w_id w0) a lab2).
+    { destruct HA1 as [[HA1|(t & T1 & T2)]|(t & SK)].
+      - destruct (D1 _ HA1); auto. left; left; auto.
+      - apply in_rev in T1. destruct (D2 _ T1) as [X|[X|X]]. left; right; eauto. left; left; congruence. right. congruence.
+      - right. exists t. auto. }
+    destruct o2; inv H; exact HA2.
 Qed.
 
-Lemma wstep_keeps P w0 w' out lab a : wstep fx P w0 = Some (w', out, lab) -> holds_addr w0 a ->
-  holds_addr w' a \/ exists t, In (LDone (w_id w0) t) lab /\ t_addr t = a.
+(* the labels of a step start with the labels of its selection phase *)
+Lemma wstep_lab_prefix P w0 w' out lab o w out0 lab0 : wstep fx f8 P w0 = Some (w', out, lab) ->
+  select f8 w0 = (o, w, out0, lab0) -> forall x, In x lab0 -> In x lab.
 Proof.
-  unfold wstep. intros H HA. dmH H; [discriminate|].
-  destruct (select w0) as [[[o w] out0] lab0] eqn:S.
+  unfold wstep. intros H S x IN. dmH H; [discriminate|]. rewrite S in H.
+  destruct o as [rt0|]; [|inv H; auto].
+  assert (IN1 : In x (lab0 ++ [LRun (w_id w) (rt_task rt0)])) by (apply in_or_app; auto).
+  destruct (desired_result (w_id w) rt0 (w_boxes w)) as [[[boxes1 rt1] l1]|] eqn:DR.
+  2:{ match type of H with context[raise_path ?a ?b ?c ?d ?e] => destruct (raise_path a b c d e) as [[w1 o1] lb1] eqn:RP end.
+      inv H. apply raise_path_spec in RP. destruct RP as (_ & _ & _ & e & -> & _). apply in_or_app; auto. }
+  assert (IN2 : In x ((lab0 ++ [LRun (w_id w) (rt_task rt0)]) ++ l1)) by (apply in_or_app; auto).
+  destruct (nth_error P (t_prog (rt_task (reset_await rt1)))) as [prog|] eqn:NP.
+  2:{ match type of H with context[raise_path ?a ?b ?c ?d ?e] => destruct (raise_path a b c d e) as [[w1 o1] lb1] eqn:RP end.
+      inv H. apply raise_path_spec in RP. destruct RP as (_ & _ & _ & e & -> & _). apply in_or_app; auto. }
+  match type of H with context[run_instrs ?a ?b ?c] => destruct (run_instrs a b c) as [oc s] eqn:RI end.
+  apply run_instrs_labels in RI. simpl in RI. destruct RI as (_ & _ & add & RL & _).
+  assert (IN3 : In x (c_lab s)) by (rewrite RL; apply in_or_app; auto).
+  destruct oc as [mb nx| |k].
+  - destruct (lookup_b mb (c_boxes s)) eqn:L.
+    + inv H. auto.
+    + match type of H with context[raise_path ?a ?b ?c ?d ?e] => destruct (raise_path a b c d e) as [[w1 o1] lb1] eqn:RP end.
+      inv H. apply raise_path_spec in RP. destruct RP as (_ & _ & _ & e & -> & _). apply in_or_app; auto.
+  - match type of H with context[match ?x with Some _ => _ | None => None end] => destruct x as [[[w2 out2] lab2]|] eqn:SH end; [|discriminate].
+    match type of H with context[completion ?a ?b ?c] => destruct (completion a b c) as [s2|] eqn:CL end; [|discriminate].
+    inv H. apply completion_labels in CL. simpl in CL. destruct CL as (add2 & CL1 & _).
+    assert (IN4 : In x lab2).
+    { destruct (t_addr (rt_task rt0)) as [[dst x1] x2]. destruct (dst =? w_id w).
+      - match type of SH with context[handle_result ?a ?b ?c] => destruct (handle_result a b c) as [[w2' l2]|] eqn:HR end; [|discriminate].
+        inv SH. apply in_or_app. left. apply in_or_app; auto.
+      - inv SH. apply in_or_app; auto. }
+    apply in_or_app. left. rewrite CL1. apply in_or_app; auto.
+  - match type of H with context[raise_path ?a ?b ?c ?d ?e] => destruct (raise_path a b c d e) as [[w1 o1] lb1] eqn:RP end.
+    inv H. apply raise_path_spec in RP. destruct RP as (_ & _ & _ & e & -> & _). apply in_or_app; auto.
+Qed.
+
+Lemma wstep_keeps P w0 w' out lab a : wstep fx f8 P w0 = Some (w', out, lab) -> holds_addr w0 a ->
+  holds_addr w' a \/ (exists t, In (LDone (w_id w0) t) lab /\ t_addr t = a) \/ skipped (w_id w0) a lab.
+Proof.
+  intros H HA. destruct (select f8 w0) as [[[o w] out0] lab0] eqn:S.
+  destruct (select_keeps _ _ _ _ _ _ S HA) as [HW|(t & SK)].
+  2:{ right. right. exists t. eapply wstep_lab_prefix; eauto. }
+  clear HA. cut (holds_addr w' a \/ (exists t, In (LDone (w_id w0) t) lab /\ t_addr t = a)). tauto.
+  revert H. unfold wstep. intros H. dmH H; [discriminate|]. rewrite S in H.
   pose proof (select_env _ _ _ _ _ S) as (S1 & S2 & S3 & S4).
-  pose proof (select_keeps _ _ _ _ _ _ S HA) as HW. clear HA.
   destruct o as [rt0|]; [|inv H; auto].
   assert (PUT : forall rt x, holds_addr (set_tasks (put_t (t_addr (rt_task rt0)) rt (w_tasks w)) x) a \/ True) by auto.
   assert (KEEP : forall w1 rt, w_tasks w1 = put_t (t_addr (rt_task rt0)) rt (w_tasks w) -> w_delayed w1 = w_delayed w -> holds_addr w1 a).
@@ -1555,7 +1669,7 @@ Proof. unfold dead. rewrite existsb_exists. tauto. Qed.
 Lemma dead_on_iff w t : dead_on w t = true <-> exists c, In c (w_cancelled w) /\ desc c t = true.
 Proof. unfold dead_on. rewrite existsb_exists. tauto. Qed.
 
-Lemma step_issued_mono P s e s' l : step fx P s e = Some (s', l) -> forall c, In c (sy_issued s) -> In c (sy_issued s').
+Lemma step_issued_mono P s e s' l : step fx f8 P s e = Some (s', l) -> forall c, In c (sy_issued s) -> In c (sy_issued s').
 Proof. intros H c IN. destruct e.
   - apply step_client in H. destruct H as (srv & o & iss & H1 & -> & _). simpl. apply in_or_app; auto.
   - apply step_up in H. destruct H as (m & q & srv & o & lab & H1 & H2 & -> & _). simpl. apply in_or_app; auto.
@@ -1565,19 +1679,20 @@ Qed.
 
 Definition good (s : sys) : Prop := sinv s /\ csound s.
 Lemma good_init nw : good (init_sys nw). Proof. split. apply sinv_init. apply csound_init. Qed.
-Lemma good_step P s e s' l : step fx P s e = Some (s', l) -> good s -> good s'.
+Lemma good_step P s e s' l : step fx f8 P s e = Some (s', l) -> good s -> good s'.
 Proof. intros H [A B]. split. eapply sinv_step; eauto. eapply csound_step; eauto. Qed.
-Lemma good_run P evs : forall s s' l, good s -> run fx P s evs = Some (s', l) -> good s'.
+Lemma good_run P evs : forall s s' l, good s -> run fx f8 P s evs = Some (s', l) -> good s'.
 Proof. intros s s' l HI H. eapply (run_inv P good (fun _ => True)); eauto.
   intros. split. eapply good_step; eauto. apply Forall_forall; auto. Qed.
 
 Theorem only_cancelled_work_removed P nw evs s0 l0 e s' l :
-  run fx P (init_sys nw) evs = Some (s0, l0) -> step fx P s0 e = Some (s', l) ->
+  run fx f8 P (init_sys nw) evs = Some (s0, l0) -> step fx f8 P s0 e = Some (s', l) ->
   (forall k ws ws' a, nth_error (sy_workers s0) k = Some ws -> nth_error (sy_workers s') k = Some ws' ->
      holds_addr ws a ->
      holds_addr ws' a
      \/ (exists t, In (LDone (S k) t) l /\ t_addr t = a)
-     \/ (exists t, In (LDrop (S k) t) l /\ t_addr t = a /\ dead (sy_issued s') t = true))
+     \/ (exists t, In (LDrop (S k) t) l /\ t_addr t = a /\ dead (sy_issued s') t = true)
+     \/ (exists t, In (LSkip (S k) a (Some t)) l /\ dead (sy_issued s') t = true))
   /\ (forall wid a t, In (LSkip wid a (Some t)) l -> dead (sy_issued s') t = true)
   /\ (forall wid a mb n, In (LCancel wid a mb n) l ->
         exists k ws, wid = S k /\ e = EStep k /\ nth_error (sy_workers s0) k = Some ws
@@ -1596,12 +1711,17 @@ Proof.
       apply nth_error_set_nth_inv in W'. destruct W' as [[-> ->]|[N1 N2]]; [|rewrite W in N2; inv N2; auto].
       rewrite W in H2. inv H2. destruct (WK _ _ W) as [K1 K2].
       destruct (wrecv_keeps _ _ _ _ _ H3 K1 HA) as [X|(t & c & X1 & X2 & X3 & X4)]; auto.
-      right. right. exists t. rewrite K2 in X1. split; auto. split; auto. apply dead_iff. exists c. split; auto.
+      right. right. left. exists t. rewrite K2 in X1. split; auto. split; auto. apply dead_iff. exists c. split; auto.
       eapply (cs_down _ CS); eauto. subst. left; auto.
     + apply step_step in ST. destruct ST as (ws0 & q & ws1 & out & H1 & H2 & H3 & ->). simpl in *.
       apply nth_error_set_nth_inv in W'. destruct W' as [[-> ->]|[N1 N2]]; [|rewrite W in N2; inv N2; auto].
       rewrite W in H1. inv H1. destruct (WK _ _ W) as [K1 K2].
-      destruct (wstep_keeps _ _ _ _ _ _ H3 HA) as [X|(t & X1 & X2)]; auto. right. left. exists t. rewrite K2 in X1. auto.
+      destruct (wstep_keeps _ _ _ _ _ _ H3 HA) as [X|[(t & X1 & X2)|(t & X1)]]; auto.
+      right. left. exists t. rewrite K2 in X1. auto.
+      right. right. right. exists t. rewrite K2 in X1. split; auto.
+      pose proof (wstep_labels _ _ _ _ _ H3 K1) as [F _]. rewrite Forall_forall in F. apply F in X1. simpl in X1.
+      apply dead_on_iff in X1. destruct X1 as (c & C1 & C2). apply dead_iff. exists c. split; auto.
+      apply in_or_app. left. eapply (cs_w _ CS); eauto.
   - intros wid a t IN. destruct D as [[j ->]|D]; [|apply NM in IN; auto; discriminate].
     destruct (step_lab_ok _ _ _ _ _ ST SI) as (ws & W & ID & F). rewrite Forall_forall in F. apply F in IN. simpl in IN.
     apply dead_on_iff in IN. destruct IN as (c & C1 & C2). apply dead_iff. exists c. split; auto. apply MONO. eapply (cs_w _ CS); eauto.
@@ -1651,7 +1771,7 @@ Proof. intros H IN. eexists. split. eapply push_down_nth; eauto. apply in_or_app
 
 Lemma cprop_init nw : cprop (init_sys nw). Proof. intros c k ws []. Qed.
 
-Lemma cprop_step P s e s' l : step fx P s e = Some (s', l) -> sinv s -> cprop s -> cprop s'.
+Lemma cprop_step P s e s' l : step fx f8 P s e = Some (s', l) -> sinv s -> cprop s -> cprop s'.
 Proof.
   intros H [[LU LD WK] BL DR] CP. destruct e.
   - apply step_client in H. destruct H as (srv & o & iss & H1 & -> & _). intros c0 k ws IN W. simpl in *.
@@ -1711,7 +1831,16 @@ Proof. induction ts as [|[k rt0] r IH]; intros b ts' b' l H a rt IN; simpl in H.
     destruct IN as [IN|IN]. inv IN. split; auto. left; auto. destruct (IH _ _ _ _ C _ _ IN). split; auto. right; auto.
 Qed.
 
-Lemma sel_delayed_tasks : forall rdel w lab o w1 lab1, sel_delayed w rdel lab = (o, w1, lab1) ->
+Lemma forget_tasks_map w a t : In t (map (fun e => rt_task (snd e)) (w_tasks (forget f8 w a))) ->
+  In t (map (fun e => rt_task (snd e)) (w_tasks w)).
+Proof. intros H. apply in_map_iff in H. destruct H as (x & E & IN). apply forget_In in IN. apply in_map_iff. eauto. Qed.
+
+Lemma sel_ready_tasks : forall ready w lab o w1 r lab1, sel_ready f8 w ready lab = (o, w1, r, lab1) ->
+  forall t, In t (map (fun e => rt_task (snd e)) (w_tasks w1)) -> In t (map (fun e => rt_task (snd e)) (w_tasks w)).
+Proof. induction ready as [|a rd IH]; intros w lab o w1 r lab1 H t IN; simpl in H. inv H; auto.
+  destruct (runnable w a). inv H; auto. eapply IH in H; eauto. eapply forget_tasks_map; eauto. Qed.
+
+Lemma sel_delayed_tasks : forall rdel w lab o w1 lab1, sel_delayed f8 w rdel lab = (o, w1, lab1) ->
   forall t, In t (tasks_of w1) -> In t (map (fun e => rt_task (snd e)) (w_tasks w)) \/ In t rdel.
 Proof.
   induction rdel as [|t0 rest IH]; intros w lab o w1 lab1 H t IN; simpl in H.
@@ -1721,27 +1850,30 @@ Proof.
       * apply in_map_iff in IN. destruct IN as ([a rt] & E & IN). apply In_put_inv in IN. destruct IN as [IN|IN].
         inv IN. simpl. right; left; auto. left. apply in_map_iff. exists (a, rt); auto.
       * right. right. apply in_rev; auto.
-    + eapply IH in H; eauto. destruct H as [H|H]; [|right; right; auto]. simpl in H.
+    + eapply IH in H; eauto. destruct H as [H|H]; [|right; right; auto]. apply forget_tasks_map in H. simpl in H.
       apply in_map_iff in H. destruct H as ([a rt] & E & IN'). apply In_put_inv in IN'. destruct IN' as [IN'|IN'].
       inv IN'. simpl. right; left; auto. left. apply in_map_iff. exists (a, rt); auto.
 Qed.
 
-Lemma select_tasks w0 o w out lab : select w0 = (o, w, out, lab) -> forall t, In t (tasks_of w) -> In t (tasks_of w0).
+Lemma select_tasks w0 o w out lab : select f8 w0 = (o, w, out, lab) -> forall t, In t (tasks_of w) -> In t (tasks_of w0).
 Proof.
   unfold select. intros H t IN.
-  destruct (sel_ready w0 (w_ready w0) []) as [[o1 r] lab1] eqn:S.
-  destruct o1. inv H. exact IN.
-  destruct (sel_delayed (set_ready [] w0) (rev (w_delayed w0)) lab1) as [[o2 w2] lab2] eqn:D.
-  assert (IN2 : In t (tasks_of w2)) by (destruct o2; inv H; exact IN).
-  eapply sel_delayed_tasks in D; eauto. simpl in D. unfold tasks_of. apply in_or_app. destruct D as [D|D]; auto.
-  right. apply in_rev; auto.
+  destruct (sel_ready f8 w0 (w_ready w0) []) as [[[o1 w'] r] lab1] eqn:S.
+  pose proof (sel_ready_env _ _ _ _ _ _ _ S) as (_ & E2 & _).
+  pose proof (sel_ready_tasks _ _ _ _ _ _ _ S) as ST.
+  destruct o1.
+  - inv H. unfold tasks_of in *. simpl in *. apply in_app_or in IN. apply in_or_app. destruct IN; auto. right. congruence.
+  - destruct (sel_delayed f8 (set_ready [] w') (rev (w_delayed w')) lab1) as [[o2 w2] lab2] eqn:D.
+    assert (IN2 : In t (tasks_of w2)) by (destruct o2; inv H; exact IN).
+    eapply sel_delayed_tasks in D; eauto. simpl in D. unfold tasks_of. apply in_or_app. destruct D as [D|D]; auto.
+    right. apply in_rev in D. congruence.
 Qed.
 
-Lemma wstep_tasks P w0 w' out lab : wstep fx P w0 = Some (w', out, lab) -> keys_ok w0 ->
+Lemma wstep_tasks P w0 w' out lab : wstep fx f8 P w0 = Some (w', out, lab) -> keys_ok w0 ->
   forall t, In t (tasks_of w') -> In t (tasks_of w0).
 Proof.
   unfold wstep. intros H KO t IN. dmH H; [discriminate|].
-  destruct (select w0) as [[[o w] out0] lab0] eqn:S.
+  destruct (select f8 w0) as [[[o w] out0] lab0] eqn:S.
   pose proof (select_tasks _ _ _ _ _ S) as ST. apply select_spec in S; auto. destruct S as (_ & KW & SP).
   destruct o as [rt0|]; [|inv H; auto].
   destruct (SP rt0 eq_refl) as (_ & LW & _). apply lt_In in LW.
@@ -1790,7 +1922,7 @@ Proof. unfold dead_on. split.
   - intros H. destruct (existsb (fun c => desc c t) (w_cancelled ws)) eqn:E; auto.
     apply existsb_exists in E. destruct E as (c & C1 & C2). rewrite H in C2; auto. Qed.
 
-Lemma nodead_step P s e s' l : step fx P s e = Some (s', l) -> sinv s -> overtaken s e = false -> nodead s -> nodead s'.
+Lemma nodead_step P s e s' l : step fx f8 P s e = Some (s', l) -> sinv s -> overtaken s e = false -> nodead s -> nodead s'.
 Proof.
   intros H [[LU LD WK] BL DR] OV ND. destruct e.
   - apply step_client in H. destruct H as (srv & o & iss & H1 & -> & _). exact ND.
@@ -1837,7 +1969,7 @@ Qed.
 Fixpoint no_overtake (P : progs) (s : sys) (evs : list event) : bool :=
   match evs with
   | [] => true
-  | e :: r => negb (overtaken s e) && match step fx P s e with Some (s1, _) => no_overtake P s1 r | None => true end
+  | e :: r => negb (overtaken s e) && match step fx f8 P s e with Some (s1, _) => no_overtake P s1 r | None => true end
   end.
 
 Lemma In_lookup_b k v l : In (k, v) l -> lookup_b k l <> None.
@@ -1845,19 +1977,19 @@ Proof. induction l as [|[k' v'] l IH]; simpl; intros H. destruct H.
   destruct (Nat.eqb k k') eqn:E. congruence. destruct H as [H|H]. inv H. rewrite Nat.eqb_refl in E. discriminate. auto. Qed.
 
 Lemma run_clean_inv P evs : forall s0 s l, good s0 /\ cprop s0 /\ nodead s0 ->
-  run fx P s0 evs = Some (s, l) -> no_overtake P s0 evs = true -> good s /\ cprop s /\ nodead s.
+  run fx f8 P s0 evs = Some (s, l) -> no_overtake P s0 evs = true -> good s /\ cprop s /\ nodead s.
 Proof.
   induction evs as [|e r IH]; intros s0 s l G0 R NO; simpl in *.
   - inv R. auto.
-  - destruct (step fx P s0 e) as [[s1 l1]|] eqn:ST; [|discriminate].
-    destruct (run fx P s1 r) as [[s2 l2]|] eqn:RR; [|discriminate]. inv R.
+  - destruct (step fx f8 P s0 e) as [[s1 l1]|] eqn:ST; [|discriminate].
+    destruct (run fx f8 P s1 r) as [[s2 l2]|] eqn:RR; [|discriminate]. inv R.
     apply andb_true_iff in NO. destruct NO as [NO1 NO2]. apply negb_true_iff in NO1.
     destruct G0 as ([SI CS] & CP & ND). eapply IH; eauto. split; [split|split].
     eapply sinv_step; eauto. eapply csound_step; eauto. eapply cprop_step; eauto. eapply nodead_step; eauto.
 Qed.
 
 Theorem quiescent_clean_partial P nw evs s l :
-  run fx P (init_sys nw) evs = Some (s, l) -> no_overtake P (init_sys nw) evs = true ->
+  run fx f8 P (init_sys nw) evs = Some (s, l) -> no_overtake P (init_sys nw) evs = true ->
   quiescent s = true -> clean s = true.
 Proof.
   intros R NO Q.
@@ -2329,7 +2461,7 @@ Proof.
 Qed.
 
 (* ------------------------------------------------------------------ C12_client_cancel / C12_client_disconnect *)
-Lemma step_server P s e s' l : step fx P s e = Some (s', l) -> srv_inv (sy_server s) ->
+Lemma step_server P s e s' l : step fx f8 P s e = Some (s', l) -> srv_inv (sy_server s) ->
   srv_inv (sy_server s') /\ sext (sy_server s) (sy_server s').
 Proof.
   intros H I. destruct e.
@@ -2339,18 +2471,18 @@ Proof.
   - apply step_step in H. destruct H as (ws & q & ws' & out & H1 & H2 & H3 & ->). simpl. split; auto. apply sext_refl.
 Qed.
 
-Lemma run_server P evs : forall s s' l, run fx P s evs = Some (s', l) -> srv_inv (sy_server s) ->
+Lemma run_server P evs : forall s s' l, run fx f8 P s evs = Some (s', l) -> srv_inv (sy_server s) ->
   srv_inv (sy_server s') /\ sext (sy_server s) (sy_server s').
 Proof.
   induction evs as [|e r IH]; intros s s' l H I; simpl in H.
   - inv H. split; auto. apply sext_refl.
-  - destruct (step fx P s e) as [[s1 l1]|] eqn:S; [|discriminate].
-    destruct (run fx P s1 r) as [[s2 l2]|] eqn:R; [|discriminate]. inv H.
+  - destruct (step fx f8 P s e) as [[s1 l1]|] eqn:S; [|discriminate].
+    destruct (run fx f8 P s1 r) as [[s2 l2]|] eqn:R; [|discriminate]. inv H.
     destruct (step_server _ _ _ _ _ S I) as [I1 [E1 E2]]. destruct (IH _ _ _ R I1) as [I2 [E3 E4]]. split; auto.
     destruct E2 as [E2 E2']. destruct E4 as [E4 E4']. split. lia. split; intros mb L N. apply E4. lia. apply E2; auto. apply E4'. lia. apply E2'; auto.
 Qed.
 
-Lemma srv_inv_reach P nw evs s l : run fx P (init_sys nw) evs = Some (s, l) -> srv_inv (sy_server s).
+Lemma srv_inv_reach P nw evs s l : run fx f8 P (init_sys nw) evs = Some (s, l) -> srv_inv (sy_server s).
 Proof. intros H. eapply run_server in H. tauto. simpl. apply srv_inv_init. Qed.
 
 Lemma filter_seq_eq k : forall n a, a <= k < a + n -> filter (fun w => w =? k) (seq a n) = [k].
@@ -2380,7 +2512,7 @@ Lemma sup_error_discarded nw comp kind asg s : lookup_n comp (s_m2t s) = None ->
 Proof. intros H. simpl. rewrite H. auto. Qed.
 
 Theorem client_cancel P nw evs s0 l0 c id asg s1 l1 ids :
-  run fx P (init_sys nw) evs = Some (s0, l0) -> step fx P s0 (EClient c (CCancel id) asg) = Some (s1, l1) ->
+  run fx f8 P (init_sys nw) evs = Some (s0, l0) -> step fx f8 P s0 (EClient c (CCancel id) asg) = Some (s1, l1) ->
   lookup_n c (s_clients (sy_server s0)) = Some ids -> In id ids ->
   exists mb, lookup_n id (s_tasks (sy_server s0)) = Some (mb, c)
     /\ lookup_n id (s_tasks (sy_server s1)) = None
@@ -2389,7 +2521,7 @@ Theorem client_cancel P nw evs s0 l0 c id asg s1 l1 ids :
     /\ (forall ids', lookup_n c (s_clients (sy_server s1)) = Some ids' -> ~ In id ids')
     /\ (forall k q, nth_error (sy_down s0) k = Some q -> nth_error (sy_down s1) k = Some (q ++ [MCancel (0, mb, 0)]))
     /\ sy_issued s1 = sy_issued s0 ++ [(0, mb, 0)]
-    /\ (forall evs2 s2 l2, run fx P s1 evs2 = Some (s2, l2) ->
+    /\ (forall evs2 s2 l2, run fx f8 P s1 evs2 = Some (s2, l2) ->
           lookup_n mb (s_boxes (sy_server s2)) = None /\ lookup_n mb (s_m2t (sy_server s2)) = None).
 Proof.
   intros R ST C IN. pose proof (srv_inv_reach _ _ _ _ _ R) as I.
@@ -2410,7 +2542,7 @@ Qed.
 (* cancel of anything that is not the requester's own live task (finished, cancelled before, unknown, somebody
    else's): acknowledged, nothing changes anywhere *)
 Theorem client_cancel_other P nw evs s0 l0 c id asg s1 l1 ids :
-  run fx P (init_sys nw) evs = Some (s0, l0) -> step fx P s0 (EClient c (CCancel id) asg) = Some (s1, l1) ->
+  run fx f8 P (init_sys nw) evs = Some (s0, l0) -> step fx f8 P s0 (EClient c (CCancel id) asg) = Some (s1, l1) ->
   lookup_n c (s_clients (sy_server s0)) = Some ids -> ~ In id ids ->
   sy_server s1 = sy_server s0 /\ sy_down s1 = sy_down s0 /\ sy_up s1 = sy_up s0 /\ sy_workers s1 = sy_workers s0
   /\ sy_issued s1 = sy_issued s0.
@@ -2424,8 +2556,8 @@ Qed.
 
 (* a connected client's CANCEL never raises (D4 is gone) *)
 Theorem client_cancel_total P nw evs s0 l0 c id asg ids :
-  run fx P (init_sys nw) evs = Some (s0, l0) -> lookup_n c (s_clients (sy_server s0)) = Some ids ->
-  exists s1 l1, step fx P s0 (EClient c (CCancel id) asg) = Some (s1, l1).
+  run fx f8 P (init_sys nw) evs = Some (s0, l0) -> lookup_n c (s_clients (sy_server s0)) = Some ids ->
+  exists s1 l1, step fx f8 P s0 (EClient c (CCancel id) asg) = Some (s1, l1).
 Proof.
   intros R C. pose proof (srv_inv_reach _ _ _ _ _ R) as I.
   unfold step. simpl. unfold cancel_comp. rewrite C.
@@ -2436,13 +2568,13 @@ Proof.
 Qed.
 
 Theorem client_disconnect P nw evs s0 l0 c order asg s1 l1 :
-  run fx P (init_sys nw) evs = Some (s0, l0) -> step fx P s0 (EClient c (CDisconnect order) asg) = Some (s1, l1) ->
+  run fx f8 P (init_sys nw) evs = Some (s0, l0) -> step fx f8 P s0 (EClient c (CDisconnect order) asg) = Some (s1, l1) ->
   lookup_n c (s_clients (sy_server s1)) = None
   /\ (forall id mb, ~ In (id, (mb, c)) (s_tasks (sy_server s1)))
   /\ (forall id mb, lookup_n id (s_tasks (sy_server s0)) = Some (mb, c) ->
         lookup_n id (s_tasks (sy_server s1)) = None /\ lookup_n mb (s_m2t (sy_server s1)) = None
         /\ lookup_n mb (s_boxes (sy_server s1)) = None
-        /\ forall evs2 s2 l2, run fx P s1 evs2 = Some (s2, l2) ->
+        /\ forall evs2 s2 l2, run fx f8 P s1 evs2 = Some (s2, l2) ->
              lookup_n mb (s_boxes (sy_server s2)) = None /\ lookup_n mb (s_m2t (sy_server s2)) = None)
   /\ (forall a, In a (sy_issued s1) -> In a (sy_issued s0)
         \/ exists id mb, lookup_n id (s_tasks (sy_server s0)) = Some (mb, c) /\ a = (0, mb, 0))
